@@ -218,6 +218,24 @@ def run(chk, S: Session):
 
     rcw = chk.rule("R-C17-W", "constructor wiring of the Jacobian handlers: every attribute that carries a constructor parameter's name holds that parameter, not another one", floor=5)
     ctor_wiring_rules(chk, S, rcw, [c.qualname for c in S.p.subclasses(JAC + ".Jacobian")])
+    # a handler that takes the differentiation routine as an option differentiates with it, in each of its three methods (F34: the option was stored and func.jacfwd hard-coded)
+    for c in S.p.subclasses(JAC + ".Jacobian"):
+        init_node = c.methods.get("__init__")
+        if init_node is None or "jacfun" not in [a_.arg for a_ in init_node.args.args + init_node.args.kwonlyargs]:
+            continue
+        for meth in want:
+            it2 = S.interp()
+            jf = A("option.jacfun")
+            try:
+                h2 = it2.instantiate(it2.class_value(c.qualname), [], {"jacfun": jf}, "<harness>")
+                out2 = call(it2, method(it2, h2, meth), HarnessFn("fun", lambda itp, a, kw, site: T.mk("call", (A("fun"), a[0]), kw, meta={"array": True})), T.atom("x", array=True), A("state"))
+            except AnalysisError as e:
+                rcw.unknown(f"{c.name}.{meth} differentiates with the configured jacfun", str(e), JAC)
+                continue
+            J2 = out2[1] if isinstance(out2, (tuple, list)) and len(out2) == 3 else None
+            used = J2 is not None and "option.jacfun" in T.atoms_of(J2)
+            rcw.require(used, f"{c.name}.{meth} differentiates with the configured jacfun", "the returned block depends on the option", f"the returned block {T.show(J2, 3) if J2 is not None else out2!r} does not depend on the option `jacfun`: "
+                        "another differentiation routine is hard-coded (a map with a reverse-mode rule only raises, a user-supplied routine is never called)", JAC, {"handler": c.name, "method": meth})
 
 def _vmap_args(it, vm_out):
     """The arguments of the vmapped call that produced a vmap_out term (recorded in the interpreter's events)."""
